@@ -109,8 +109,10 @@ func SkipIfStillRunning(logger Logger) JobWrapper {
 		return FuncJob(func() {
 			select {
 			case v := <-ch:
+				// hand the token back also when the job panics (with Recover further out in
+				// the chain the entry would otherwise be skipped for ever)
+				defer func() { ch <- v }()
 				j.Run()
-				ch <- v
 			default:
 				logger.Info("skip")
 			}
